@@ -229,6 +229,6 @@ MANIFEST = {
             "non-negative, sum p; ranking key and sign convention per objective / bound kind; all-failed => TOO_FEW_REALIZATIONS and no internal exception) "
             "discharged by z3 on the real kernel and filter methods for all real values, all percentiles in (0,1] and every failure mask, per n <= 3 (quick) / 6 (thorough). "
             "The floating-point clause (p*n within an ulp of an integer) is proved bit-precisely (QF_FP) for all doubles p per ensemble size n <= 24 / 96.",
-    "note": "np.argsort by contract; rank/mass clauses over the reals for n <= 3/6; rounding clause bit-precise (z3 FloatingPoint) for all doubles per n <= 24/96; bounded in ensemble size",
+    "note": "plus the filter inside the real EnsembleEvaluator (real constructors, failures in one column only, unused filter first, repeated calls, prior instances); np.argsort by contract; rank/mass clauses over the reals for n <= 3/6; rounding clause bit-precise (z3 FloatingPoint) for all doubles per n <= 24/96; bounded in ensemble size",
     "technique": "contract-based deductive verification: symbolic execution of the real source under sidecar contracts, VCs discharged by z3/cvc5; bounded run-time contract checking as stand-in",
 }
